@@ -64,6 +64,7 @@ var (
 	nxMax   int64
 	nxCount int64
 	nxHist  [5]int64 // <1ms <10ms <100ms <1s >=1s
+	nxSlow  int64    // answers slower than the bound that were asked again (one slow answer alone is not a violation)
 )
 
 func nxRecord(d time.Duration) {
@@ -503,6 +504,9 @@ func (q *seqRun) exec(tok string) []string {
 			}
 			nxRecord(res.dur)
 			if res.dur >= slowNoExist { // slow once is slowness; ask again, nothing else is running
+				nxMu.Lock()
+				nxSlow++
+				nxMu.Unlock()
 				again := call(q.s, key, 60000+i)
 				if again.kind == "noexist" {
 					nxRecord(again.dur)
@@ -578,6 +582,7 @@ type opResult struct {
 	NxMax   int64    `json:"nxmax"`
 	NxCount int64    `json:"nxcount"`
 	NxHist  [5]int64 `json:"nxhist"`
+	NxSlow  int64    `json:"nxslow"`
 }
 
 func guard(res *opResult, f func()) {
@@ -716,7 +721,11 @@ type window struct {
 	done, closed bool  // closed: a refused connection was closed by the server
 }
 
-func runConc(seed int64, nconn, nkeys, ncallers int) (res opResult) {
+// burst > 0: the backlog scenario - connection 0 joins key 1, floods the server with `burst` heartbeats in ONE
+// write (msgChan holds 10: its writer is busy answering them), then every caller fires at key 1 at once (the
+// connection's command queue holds 3, the manager blocks on it) and the terminal disappears a moment later:
+// commands queued, commands in the manager's hand and the teardown race.
+func runConc(seed int64, nconn, nkeys, ncallers int, burst int) (res opResult) {
 	s := server()
 	rng := rand.New(rand.NewSource(seed))
 	klo := 1 // one scenario in six also uses key 0 = the empty string (a KeyFunc may yield it)
@@ -770,7 +779,17 @@ func runConc(seed int64, nconn, nkeys, ncallers int) (res opResult) {
 		again           bool
 	}
 	stops := []string{"s", "s", "sc", "sr"}
+	goCh := make(chan struct{}) // burst: closed when connection 0 has joined and flooded
+	var goOnce sync.Once
+	fire := func() { goOnce.Do(func() { close(goCh) }) }
+	if burst == 0 {
+		fire()
+	}
 	mkplan := func(key int) plan {
+		if burst > 0 {
+			return plan{key: 1, d2: time.Duration(rng.Intn(500)) * time.Microsecond, join: true,
+				stop: []string{"sr", "sc", "s"}[rng.Intn(3)]}
+		}
 		return plan{key: key, d1: time.Duration(rng.Intn(1200)) * time.Microsecond,
 			d2: time.Duration(rng.Intn(2000)) * time.Microsecond, bad: rng.Intn(6) == 0, join: rng.Intn(8) != 0,
 			more: rng.Intn(2) == 0, frag: rng.Intn(4) == 0, stop: stops[rng.Intn(len(stops))], again: rng.Intn(3) == 0}
@@ -839,6 +858,16 @@ func runConc(seed int64, nconn, nkeys, ncallers int) (res opResult) {
 				note("connection %d joined key %q but the server closed it", c, phone)
 			}
 		}
+		if burst > 0 && c == 0 {
+			if r.joined && !r.isEOF() {
+				var flood []byte
+				for k := 0; k < burst; k++ {
+					flood = append(flood, TFrame(0x0002, r.phone, r.t.NextSerial(), nil)...)
+				}
+				r.t.SendRaw(flood)
+			}
+			fire()
+		}
 		if p.more && r.joined && !r.isEOF() {
 			time.Sleep(p.d2 / 2)
 			a := now()
@@ -888,6 +917,13 @@ func runConc(seed int64, nconn, nkeys, ncallers int) (res opResult) {
 			defer wg.Done()
 			guarded(func() {
 				p := cplans[i]
+				if burst > 0 {
+					p.key, p.d = 1, time.Duration(i%4)*40*time.Microsecond
+					select {
+					case <-goCh:
+					case <-time.After(stallAfter):
+					}
+				}
 				time.Sleep(p.d)
 				key, _ := keyOf(phoneOfKey(p.key))
 				a := now()
@@ -929,6 +965,9 @@ func runConc(seed int64, nconn, nkeys, ncallers int) (res opResult) {
 				// that is unambiguous.  One slow answer is slowness: the call is repeated now (everything of this
 				// scenario has ended, the key is not online) and only two slow answers are reported.
 				if sr.dur >= cmdTimeout/2 {
+					nxMu.Lock()
+					nxSlow++
+					nxMu.Unlock()
 					again := call(s, sr.key, 50000+i)
 					if again.kind == "noexist" {
 						nxRecord(again.dur)
@@ -1039,7 +1078,7 @@ func atoi(s string) int { v, _ := strconv.Atoi(s); return v }
 
 func jsonOf(r opResult) string {
 	nxMu.Lock()
-	r.NxMax, r.NxCount, r.NxHist = nxMax, nxCount, nxHist
+	r.NxMax, r.NxCount, r.NxHist, r.NxSlow = nxMax, nxCount, nxHist, nxSlow
 	nxMu.Unlock()
 	b, _ := json.Marshal(r)
 	return string(b)
@@ -1071,16 +1110,24 @@ func main() {
 		r := runAdapt(adaptArgs(a))
 		return r.Req + " => " + textOf(r)
 	})
-	RegisterOp("regconc", func(a []string) string { // regconc <seed> <nconn> <nkeys> <ncallers>
+	RegisterOp("regconc", func(a []string) string { // regconc <seed> <nconn> <nkeys> <ncallers> [<burst>]
 		seed, _ := strconv.ParseInt(a[0], 10, 64)
-		return textOf(runConc(seed, atoi(a[1]), atoi(a[2]), atoi(a[3])))
+		b := 0
+		if len(a) > 4 {
+			b = atoi(a[4])
+		}
+		return textOf(runConc(seed, atoi(a[1]), atoi(a[2]), atoi(a[3]), b))
 	})
 	// the same for the parent (JSON)
 	RegisterOp("xseq", func(a []string) string { return jsonOf(runSeq(a)) })
 	RegisterOp("xadapt", func(a []string) string { return jsonOf(runAdapt(adaptArgs(a))) })
 	RegisterOp("xconc", func(a []string) string {
 		seed, _ := strconv.ParseInt(a[0], 10, 64)
-		return jsonOf(runConc(seed, atoi(a[1]), atoi(a[2]), atoi(a[3])))
+		b := 0
+		if len(a) > 4 {
+			b = atoi(a[4])
+		}
+		return jsonOf(runConc(seed, atoi(a[1]), atoi(a[2]), atoi(a[3]), b))
 	})
 	if ChildMode() {
 		ServeOps()
@@ -1098,13 +1145,14 @@ type parent struct {
 	ch    *Child
 	fatal int
 	// ErrNotExistKey latency: totals of finished children + the running child's cumulative numbers
-	nxDoneCount, nxDoneMax int64
+	nxDoneCount, nxDoneMax, nxDoneSlow int64
 	nxDoneHist             [5]int64
 	nxCur                  opResult
 }
 
 func (p *parent) nxRoll() { // the current child is gone: bank its numbers
 	p.nxDoneCount += p.nxCur.NxCount
+	p.nxDoneSlow += p.nxCur.NxSlow
 	if p.nxCur.NxMax > p.nxDoneMax {
 		p.nxDoneMax = p.nxCur.NxMax
 	}
@@ -1288,6 +1336,10 @@ func c11(c *Ctx) {
 			ncallers = 10 - nconn
 		}
 		req := fmt.Sprintf("xconc %d %d %d %d", rng.Int63n(1<<40), nconn, nkeys, ncallers)
+		if n%6 == 5 { // the backlog scenario: 1..2 connections, 6..12 callers on one key, a flood, an abrupt end
+			req = fmt.Sprintf("xconc %d %d 1 %d %d", rng.Int63n(1<<40), 1+rng.Intn(2), 6+rng.Intn(7), 20+rng.Intn(280))
+			c.Count("conc:backlog-scenario")
+		}
 		p.record(p.run(req), replayForm(req))
 	}
 	if p.fatal >= 3 {
@@ -1296,5 +1348,6 @@ func c11(c *Ctx) {
 	p.nxRoll()
 	c.Extra["noexist_answers"] = p.nxDoneCount
 	c.Extra["noexist_latency_us_max"] = p.nxDoneMax
+	c.Extra["noexist_slow_answers_asked_again"] = p.nxDoneSlow
 	c.Extra["noexist_latency_hist_lt1ms_lt10ms_lt100ms_lt1s_ge1s"] = p.nxDoneHist
 }
